@@ -82,6 +82,7 @@ def track(ver, case, obs, want):
     closed_expected = False
     good_peer = True
     peer_early_comp = False
+    auto_t = G.auto_of(ops)
     for i, (op, f) in enumerate(zip(ops, of)):
         po = parse_obs_field(f)
         if po is None:
@@ -96,6 +97,10 @@ def track(ver, case, obs, want):
         t = op[1] if len(op) > 1 else None
         if code == 19:
             code = 1                           # a spawned send: started and polled at once
+        # who writes a PUBLISH / SUBSCRIBE / UNSUBSCRIBE in this operation: the task the operation names, or -- in an
+        # operation that names no task (acknowledgements, back-pressure, set_cap ..) -- the task owned by the executor,
+        # which runs whenever such an operation has woken it
+        writer = t if code in (1, 2, 6, 7, 13, 16, 18) else auto_t
         if code in (1, 16) and t is not None and t not in kind_of and len(op) > 2 and t in tasks and t not in prev_tasks:
             # the op that created task t (a start / create with a task number in use is a no-op)
             kind_of[t] = op[2]
@@ -156,10 +161,10 @@ def track(ver, case, obs, want):
                 if (6 in want or 14 in want) and (pid == 0 or any(e[0] == pid for e in out)):
                     return "0,63,%d" % i
                 exp = {PUB1: PUBACK, PUB2: PUBREC, SUB: SUBACK, UNSUB: UNSUBACK}[tag]
-                out.append([pid, exp, t])
-                if t is not None:
-                    id_of[t] = pid
-                    phase[t] = "sent"
+                out.append([pid, exp, writer])
+                if writer is not None:
+                    id_of[writer] = pid
+                    phase[writer] = "sent"
             elif tag == PUBREL:
                 if 14 in want and not peer_early_comp and code in (6, 7):
                     if id_of.get(t) != pid:
@@ -192,7 +197,9 @@ def track(ver, case, obs, want):
                         return "0,61,%d" % i
                     if phase.get(u) == "receipt_ready":
                         phase[u] = "receipt"
-                if mismatch_here and 6 in want and k in (1, 2, 3, 4, 7, 8):
+                if mismatch_here and 6 in want and k in (1, 2, 3, 4, 7, 8) and u != auto_t:
+                    # (the task owned by the executor may complete in the very operation whose first, matching
+                    # acknowledgement was its own; clause 61 above has checked that)
                     return "0,65,%d" % i
         if 6 in want and code in (1, 2) and t is not None and tasks.get(t) == 4 and prev_tasks.get(t) in (None, 1) \
                 and start_id.get(t) and prev_open and is_open and not closed_expected and good_peer:
